@@ -202,6 +202,17 @@ def stdInput (r : Run) : List Emit :=
 /-- the findings printed by the run (without the checkers summary, which StdLogger adds itself) -/
 def printed (r : Run) : List Finding := (stdLogger r.o (stdInput r)).map (·.f)
 
+/-- the messages the loggers of the files forward, file after file -/
+def fromFiles (r : Run) : List Emit := (fileStates r).flatMap (·.out)
+
+/-- the messages arriving at StdLogger when the workers' messages reach the executor in the order `es` (with the thread and
+    process executors any interleaving of the per-file streams; `stdInput r = stdInputOf r (fromFiles r)`) -/
+def stdInputOf (r : Run) (es : List Emit) : List Emit :=
+  (if r.o.executor == .single then es else hasToLog r.o es) ++ (main2 r).out ++
+    (if r.unmatchedGate then r.unmatched.map (⟨·, false⟩) else [])
+
+def printedOf (r : Run) (es : List Emit) : List Finding := (stdLogger r.o (stdInputOf r es)).map (·.f)
+
 /-- `stdLogger.hasCriticalErrors()` -/
 def hasCritical (r : Run) : Bool := (stdInput r).any (·.f.critical)
 
@@ -231,8 +242,8 @@ def processStatus (p : Parse) (r : Run) : Nat :=
 
 def allFindings (r : Run) : List Finding := r.files.flatten ++ r.wp1 ++ r.wp2 ++ r.unmatched
 
-/-- the rendered text determines the answers of the suppression lists (true for the built-in templates,
-    which contain file, line, column, id and message) -/
+/-- the rendered text determines the two answers the duplicate filters can confuse: the exitcode-suppression answer and the
+    global message-suppression answer (true for the built-in templates, which contain file, line, column, id and message) -/
 def keyCoherent (r : Run) : Bool :=
   (allFindings r).all fun f => (allFindings r).all fun g =>
     f.key != g.key || (f.nofail == g.nofail && f.nomsgGlobal == g.nomsgGlobal)
